@@ -164,9 +164,9 @@ def run_random(spec, sh):
         start = rng.choice([0, step, rng.randint(-2 * step, 20 * step)])
         if rng.random() < 0.3:          # far along a chromosome, fractional coordinates, labels within a fraction of a bp of the limit
             far = rng.choice([2 ** 24, 6 * 10 ** 7, 15 * 10 ** 7]) + rng.randint(0, 10 ** 6)
-            r = [x + far + rng.choice([0, 0.1, 0.5, -0.1]) for x in r]
+            r = sorted(x + far + rng.choice([0, 0.1, 0.5, -0.1]) for x in r)
             start = start + far
-            q = [x + rng.choice([0, 0.1, 0.4]) for x in q]
+            q = sorted(x + rng.choice([0, 0.1, 0.4]) for x in q)        # label lists are ascending by definition
             q = [x - q[0] for x in q]
         qlen = q[-1] + 1
         c = {'r': sorted(r), 'rlen': (max(r) if r else 0) + 10, 'q': q, 'qlen': qlen, 'shift': rng.choice([0, 0, 2, 17]),
